@@ -7,7 +7,7 @@ rm -rf /tmp/evidence.keep && cp -r /verif/evidence /tmp/evidence.keep
 git -C /repo apply "$S/patch.diff" || { echo "patch does not apply"; exit 2; }
 for p in "$@"; do
   echo "== $p under $(basename $S)"
-  (cd /verif && timeout 1500 bin/vcheck $p --tier quick | grep -E "VIOLATION" | head -3)
+  (cd /verif && timeout 2400 bin/vcheck $p --tier quick | grep -E "VIOLATION" | head -3)
 done
 git -C /repo checkout -- . ; git -C /repo status --short | head -3
 rm -rf /verif/evidence && mv /tmp/evidence.keep /verif/evidence
